@@ -284,6 +284,36 @@ def print_assumptions(prop, thms, workdir):
     return res, out
 
 
+def coqchk(prop, timeout=2400):
+    """Thorough tier: re-check the compiled closure of the property's Props files with the
+    independent checker (coqchk -o prints the axioms of EVERYTHING loaded, incl. the standard
+    library's primitive-float / primitive-integer declarations).  Returns (status, axioms, log):
+    status in ok / failed / timeout."""
+    mods = ["Ecal." + f[:-2].replace("/", ".") for f in prop_files(prop)]
+    t0 = time.time()
+    with Lock("coq-" + prop):
+        rc, out = run(["coqchk", "-silent", "-o", "-Q", ".", "Ecal"] + mods, cwd=COQ, timeout=timeout)
+    if rc == 124:
+        return "timeout", [], out[-800:]
+    if rc != 0:
+        return "failed", [], out[-1500:]
+    ax = []
+    sect = None
+    for line in out.splitlines():
+        m = re.match(r"^\* (.*?):\s*(.*)$", line)
+        if m:
+            sect = m.group(1)
+            if sect == "Axioms" and m.group(2).strip() not in ("", "<none>"):
+                ax.append(m.group(2).strip())
+            continue
+        if sect == "Axioms" and line.strip():
+            ax.append(line.strip())
+    bad_sections = re.findall(r"^\* (Constants/Inductives relying on type-in-type|Constants/Inductives relying on unsafe \(co\)fixpoints|Inductives whose positivity is assumed): (?!<none>)(.*)$", out, flags=re.M)
+    if bad_sections:
+        return "failed", ax, "coqchk reports: " + "; ".join("%s: %s" % b for b in bad_sections)
+    return "ok", ax, "%.0f s" % (time.time() - t0)
+
+
 # --------------------------------------------------------------------------- harness
 
 def harness_bin(prop):
@@ -445,6 +475,18 @@ def check(prop, tier, seed, cfg, replay=None):
             axioms = {}
             proofs_ok = False
 
+    chk = None
+    if proofs_ok and tier == "thorough" and not replay and os.environ.get("VERIF_NO_COQCHK") != "1":
+        status, chk_ax, chk_log = coqchk(prop)
+        foreign = [a for a in chk_ax if not a.startswith("Coq.")]
+        chk = {"status": status, "axioms_of_loaded_libraries": chk_ax, "note": chk_log}
+        if status == "failed":
+            broken.append(("proof", "coqchk rejects the compiled files of Props/%s*.vo: %s" % (prop, chk_log)))
+        elif foreign:
+            broken.append(("proof", "coqchk -o lists axioms outside Coq's standard library: " + ", ".join(foreign[:10])))
+        elif status == "timeout":
+            notes.append("coqchk did not finish within its time limit (not counted)")
+
     ok, out = build_harness(prop)
     result = None
     bad = []
@@ -537,6 +579,9 @@ def check(prop, tier, seed, cfg, replay=None):
             "not_comparable": skipped,
             "known_findings_hit": known_hit,
         })
+    if chk is not None:
+        coverage["coqchk"] = chk
+        coverage["checker_cmd"] += "; thorough tier: coqchk -silent -o on the property's Props modules (independent re-check of the compiled closure)"
     coverage["broken_obligations"] = [{"what": w, "detail": d[:500]} for w, d in broken]
     if not replay and not ALT:
         write_evidence(prop, tier, seed, coverage, cfg.get("assumptions", []), time.time() - t0,
